@@ -351,7 +351,18 @@ pub fn gen_pratt(r: &mut Rng) -> J {
     let n = 1 + r.below(6);
     let syms = ["+", "*", "-", "!", "^", "~"];
     let fixes = ["prefix", "postfix", "infixl", "infixr", "infixl"];
-    let ops: Vec<J> = (0..n).map(|_| json!([*r.pick(&fixes), r.below(4), *r.pick(&syms)])).collect();
+    // operator parsers: mostly a single symbol, sometimes a doubled symbol ("**" next to "*") or a choice of two
+    let ops: Vec<J> = (0..n)
+        .map(|_| {
+            let s = *r.pick(&syms);
+            let opg = match r.below(8) {
+                0 => json!(["just", [s, s]]),
+                1 => json!(["or", ["just", [s]], ["just", [*r.pick(&syms)]]]),
+                _ => json!(["just", [s]]),
+            };
+            json!([*r.pick(&fixes), r.below(4), opg])
+        })
+        .collect();
     let table = if r.chance(1, 2) { "vec" } else { "tuple" };
     let p = json!(["pratt", ["oneof", ["a", "b"]], ops, table]);
     if r.chance(1, 3) {
